@@ -22,7 +22,8 @@ MANIFEST = {
             'After every read-back: ids, bytes, ids-of-bytes, parent-before-child order; after every rebuild: per-block '
             'ledger and head height against the in-memory tree. A separate fault-injecting batch fails a flush before '
             'commit (disk full) with a deliberately relaxed oracle.'
-            " Half of the runs reach the store through the node's DiskInterface (save_block/flush_blocks); a discard_buffer operation (what the networking layer does when it rejects a validated block) is followed by handing the same blocks over again.",
+            " Half of the runs reach the store through the node's DiskInterface (save_block/flush_blocks); a discard_buffer operation (what the networking layer does when it rejects a validated block) is followed by handing the same blocks over again."
+            " While a flush is raced the store's lock is a simulated lock: the second thread is tried inside the write and parked only if it really meets the held lock. Injected flush failures are persistent (disk full) or transient (one statement).",
     'note': 'Trusted: reference store = list of flushed blocks; SQLite itself; no torn pages / crash inside commit '
             '(no VFS seam in Python sqlite3; the statement does not ask for them).',
 }
